@@ -20,7 +20,7 @@ Print Assumptions anf_in_context_keeps_order.
 
 (** non-vacuity: f(g(1), if c { h(2) } else { 3 }) *)
 Definition ex_body : lexpr :=
-  LCall (LVar [102]) [LCall (LVar [103]) [LPrim [49]]; LIf (LVar [99]) (LCall (LVar [104]) [LPrim [50]]) (LPrim [51])].
+  LCall (LVar [102]) [LCall (LVar [103]) [LPrim [49] 1]; LIf (LVar [99]) (LCall (LVar [104]) [LPrim [50] 1]) (LPrim [51] 1)].
 Example ex_body_order :
   ord_a (fst (anf_fn 10 ex_body 0)) = [EvOp (DCall 1); EvIf [EvOp (DCall 1)] []; EvOp (DCall 2)]
   /\ (depth ex_body <= 10)%nat.
@@ -31,5 +31,5 @@ Proof. split; [reflexivity|cbn; lia]. Qed.
     C09-and-or-not-short-circuit): in `false && noisy()` the call is performed unconditionally, before the
     operator, outside any branch. 4288100 is the operator name And read in base 256. *)
 Example short_circuit_refuted :
-  ord_a (fst (anf_fn 5 (LBin 4288100 (LPrim [102]) (LCall (LVar [110]) [])) 0)) = [EvOp (DCall 0); EvOp (DBin 4288100)].
+  ord_a (fst (anf_fn 5 (LBin 4288100 (LPrim [102] 0) (LCall (LVar [110]) [])) 0)) = [EvOp (DCall 0); EvOp (DBin 4288100)].
 Proof. reflexivity. Qed.
